@@ -11,6 +11,11 @@ from .common import harness, outcome, mk_ragged, pyint
 
 def run_op(ra, p, j=None):
     op = p["op"]
+    if p.get("again"):
+        # the same question asked before (and its answer kept): asking again gives the same answer, and the first answer is not rewritten
+        first = run_op(ra, dict(p, again=False), j)
+        if p["again"] == "other":
+            ra.col_counts(); ra.mean(axis=0)
     if op == "sum0":
         return ra.sum(axis=0) if p.get("via") != "np" else np.sum(ra, axis=0)
     if op == "mean0":
@@ -124,6 +129,10 @@ def jobs(tier, seed):
     out.append(dict(base, op="mean0", dtype="bool", R=3))
     out.append(dict(base, op="mean0", dtype="uint8", R=3))
     out.append(dict(base, op="colvals", dtype="int64", R=3 if q else 4))
+    for op in ("col_counts", "sum0", "mean0"):
+        out.append(dict(base, op=op, dtype="int64", R=3, again=True))
+    out.append(dict(base, op="col_counts", dtype="int64", R=3, again="other"))
+    out.append(dict(base, op="sum0", dtype="int64", R=3, again="other"))
     return [dict(h="C09.columns", p=p) for p in out]
 
 
@@ -134,7 +143,11 @@ harness("C09.columns", jobs, sym, conc)
 def _view_ops():
     return {"sum0": lambda d: (d.sum(axis=0) if d.size else ("empty",)), "col_counts": lambda d: (d.col_counts() if d.size else ("empty",)),
             "colvals": lambda d: d.get_column_values(0), "colvals1": lambda d: (d.get_column_values(1) if len(d) and int(np.max(d.lengths)) > 1 else ("no such column",)),
-            "sum0_sub": lambda d: (d[1:].sum(axis=0) if d[1:].size else ("empty",)), "counts_sub": lambda d: (d[::-1].col_counts() if d.size else ("empty",)), "mean0": lambda d: (d.mean(axis=0) if d.size else ("empty",))}
+            "sum0_sub": lambda d: (d[1:].sum(axis=0) if d[1:].size else ("empty",)), "counts_sub": lambda d: (d[::-1].col_counts() if d.size else ("empty",)),
+            "counts_twice": lambda d: ((d.col_counts(), d.col_counts(), d.col_counts()) if d.size else ("empty",)), "sum0_twice": lambda d: ((d.sum(axis=0), d.sum(axis=0)) if d.size else ("empty",)), "mean0": lambda d: (d.mean(axis=0) if d.size else ("empty",))}
+
+
+_PREREAD = {"size": lambda a: a.size, "repr": lambda a: repr(a), "rowsum": lambda a: a.sum(axis=-1)}
 
 
 def sym_onview(E, p, kf):
@@ -149,7 +162,7 @@ def sym_onview(E, p, kf):
     P = programs.ParamStore(E, B=2)
     case = dict(p=p, lens=lens, data=data, params=P.values)
     conc_ = lambda t: (E.branch(t) if z3.is_bool(t) else E.concretize(t)) if z3.is_expr(t) else t
-    od, of, oa = programs.on_view(RaggedArray, lens, data, "int64", p["pre"], _view_ops()[p["op"]], P, conc=conc_)
+    od, of, oa = programs.on_view(RaggedArray, lens, data, "int64", p["pre"], _view_ops()[p["op"]], P, conc=conc_, preread=_PREREAD.get(p.get("preread")))
     if od["k"] != of["k"]:
         return dict(goal=False, got=od, case=case)
     goal = specs.conj([specs.obs_goal(od, of) if od["k"] != "raise" else True, specs.obs_goal(oa, dict(k="ragged", flat=data, lens=lens, dtype="int64"))])
@@ -161,7 +174,7 @@ def conc_onview(case):
     from npstructures import RaggedArray
     p = case["p"]
     P = programs.ParamStore(None, dict(case["params"]), B=2)
-    od, of, oa = programs.on_view(RaggedArray, case["lens"], case["data"], "int64", p["pre"], _view_ops()[p["op"]], P)
+    od, of, oa = programs.on_view(RaggedArray, case["lens"], case["data"], "int64", p["pre"], _view_ops()[p["op"]], P, preread=_PREREAD.get(p.get("preread")))
     if od["k"] == "raise" and of["k"] == "raise":
         of = common.refused()
     return od, of, {"float_eq": True}
@@ -179,6 +192,10 @@ def jobs_onview(tier, seed):
                 out.append(dict(R=3, L=1 if q else 2, pre=pre, op=op))      # three symbolic row positions: 216 index triples per shape
                 continue
             out.append(dict(R=3, L=2, pre=pre, op=op) if q else dict(R=3, L=3, pre=pre, op=op))
+    for pre in ("rowslice_a", "mask", "colslice_a"):
+        for rd in ("size", "rowsum"):
+            out.append(dict(R=3, L=2, pre=pre, op="sum0", preread=rd))
+            out.append(dict(R=3, L=2, pre=pre, op="col_counts", preread=rd))
     return [dict(h="C09.onview", p=p) for p in out]
 
 
